@@ -22,17 +22,21 @@ Inductive valid : st -> list ev -> Prop :=
   | valid_nil s : valid s []
   | valid_cons s e es : ev_ok s e -> valid (fst (step s e)) es -> valid s (e :: es).
 
-(** C11 main: whatever the ring mode, the number of polls, the number of wakers and of their
-    calls, and the interleaving: the poller never blocks for ever while a wake-up is owed. *)
+(** C11 main: whatever the ring mode, the size [c] of the submission queue, the number [prefill]
+    of unrelated entries queued (and never completing) when the race starts, the number of polls,
+    the number of wakers and of their calls, and the interleaving: the poller never blocks for
+    ever while a wake-up is owed. (No relation between [c] and [prefill] is needed: with [c = 0]
+    every [add] fails and the wakers retry for ever, which is "inside the call"; safety only,
+    termination of the retry loop of [Submissions::wake] is not claimed.) *)
 Definition no_lost_ring_wakeup : Prop :=
-  forall m npolls wcalls es, valid (init m npolls wcalls) es ->
-    lost (fst (run step (init m npolls wcalls) es)) = false.
+  forall m c prefill npolls wcalls es, valid (init m c prefill npolls wcalls) es ->
+    lost (fst (run step (init m c prefill npolls wcalls) es)) = false.
 
 (** The invariant behind it, as a statement of its own: whenever the poller is blocked in the
     kernel and a wake-up is owed, something is on its way. *)
 Definition wake_is_on_its_way : Prop :=
-  forall m npolls wcalls es, valid (init m npolls wcalls) es ->
-    let s := fst (run step (init m npolls wcalls) es) in
+  forall m c prefill npolls wcalls es, valid (init m c prefill npolls wcalls) es ->
+    let s := fst (run step (init m c prefill npolls wcalls) es) in
     pp s = PInKernel -> owed s = true ->
       0 < cq s \/ sqh s < sqt s \/ exists i w, nth_error (wakers s) i = Some w /\ wp w <> WIdle.
 
@@ -42,23 +46,26 @@ Definition awoken_bit_makes_next_poll_prompt : Prop :=
     let s' := pstep s in aw s' = true /\ pstate s' = IS_POLLING.
 
 (** Extra (not needed for the above, closes the gap left by the [sqh < sqt] disjunct): a wake
-    message that is published and not consumed always has somebody who will submit it: the
-    kernel thread, or a waker that is about to call [enter] and whose [to_submit] covers it. No
-    assumption on the schedule. *)
+    message that is published and not consumed ([sqo] of the pending entries, at the front, are
+    not wake messages) always has somebody who will submit it: the kernel thread, or a waker
+    that is about to call [enter] and whose [to_submit] covers it (the kernel consumes from the
+    head, the other entries first; [to_submit] is computed from a head loaded earlier, so it
+    covers everything pending). No assumption on the schedule. *)
 Definition pending_message_has_a_submitter : Prop :=
-  forall m npolls wcalls es,
-    let s := fst (run step (init m npolls wcalls) es) in
-    sqh s < sqt s ->
+  forall m c prefill npolls wcalls es,
+    let s := fst (run step (init m c prefill npolls wcalls) es) in
+    sqh s + sqo s < sqt s ->
       md s = KernelThread
       \/ exists i w, nth_error (wakers s) i = Some w /\ (wp w = WEnterH \/ wp w = WEnterT).
 
 (** Extra, the two combined: a blocked poller that is owed a wake-up can be resumed at once, or
-    some waker has not finished its call (and, finishing it, will post the message). *)
+    some waker has not finished its call (and, finishing it, will post the message). In the
+    kernel-thread case a wake message is among what the kernel thread will take. *)
 Definition owed_poller_is_resumable_or_a_waker_is_running : Prop :=
-  forall m npolls wcalls es, valid (init m npolls wcalls) es ->
-    let s := fst (run step (init m npolls wcalls) es) in
+  forall m c prefill npolls wcalls es, valid (init m c prefill npolls wcalls) es ->
+    let s := fst (run step (init m c prefill npolls wcalls) es) in
     pp s = PInKernel -> owed s = true ->
-      0 < cq s \/ (md s = KernelThread /\ sqh s < sqt s)
+      0 < cq s \/ (md s = KernelThread /\ sqh s + sqo s < sqt s)
       \/ exists i w, nth_error (wakers s) i = Some w /\ wp w <> WIdle.
 
 (** ** Classes of program counters *)
@@ -77,23 +84,25 @@ Definition entering_pc (p : ppc) : bool :=
     the poll not yet returned) a wake-up may be owed whatever the state word is. *)
 Definition before_pc (p : ppc) : bool :=
   match p with PIdle | PLoadCqT | PSetPolling => true | _ => false end.
-(** A waker whose [fetch_or] saw "polling, not awoken" and that has not published its message. *)
-Definition committed_pc (p : wpc) : bool :=
-  match p with
+(** A waker whose [fetch_or] saw "polling, not awoken" and that has not published its message:
+    inside [add], or between an [add] that failed on a full queue and the retry. *)
+Definition committed (w : waker) : bool :=
+  match wp w with
+  | WIdle => false
   | WAddH1 | WAddT1 | WAddLock | WAddSpin | WAddH2 | WAddT2 | WAddFill | WAddStore => true
-  | _ => false
+  | WEnterH | WEnterT | WEnterFlags | WWbH | WWbT | WWbTry => negb (wok w)
   end.
-(** A waker that has published and is about to [enter] with a [to_submit] computed from a head
-    it (will have) loaded after its own store. *)
-Definition submitter_pc (p : wpc) : bool :=
-  match p with WEnterH | WEnterT => true | _ => false end.
+(** A waker that is about to [enter] (after a successful or a failed [add]) with a [to_submit]
+    computed from a head it (will have) loaded after its own store. *)
+Definition submitter (w : waker) : bool :=
+  match wp w with WEnterH | WEnterT => true | _ => false end.
 
-Definition some_waker (f : wpc -> bool) (l : list waker) : Prop :=
-  exists i w, nth_error l i = Some w /\ f (wp w) = true.
+Definition some_waker (f : waker -> bool) (l : list waker) : Prop :=
+  exists i w, nth_error l i = Some w /\ f w = true.
 
 (** ** The invariant *)
 Definition Inv (s : st) : Prop :=
-  sqh s <= sqt s
+  sqh s + sqo s <= sqt s
   /\ pstate s < 4
   /\ N.testbit (pstate s) 0 = polling_pc (pp s)
   /\ (pp s = PInKernel -> aw s = false)
@@ -102,20 +111,21 @@ Definition Inv (s : st) : Prop :=
   /\ (owed s = true -> entering_pc (pp s) = true -> aw s = true \/ N.testbit (pstate s) 1 = true)
   /\ (owed s = true -> before_pc (pp s) = true -> N.testbit (pstate s) 1 = true)
   (* after this poll's swap the awoken bit can only have been set by a waker that saw
-     "polling, not awoken": it is committed to post, or its message is published, or the
-     message's completion is in the queue (nothing is released before [enter] returns) *)
+     "polling, not awoken": it is committed to post (possibly retrying), or a message is
+     published, or the message's completion is in the queue (nothing is released before [enter]
+     returns) *)
   /\ (entering_pc (pp s) = true -> N.testbit (pstate s) 1 = true -> aw s = false ->
-        0 < cq s \/ sqh s < sqt s \/ some_waker committed_pc (wakers s))
+        0 < cq s \/ sqh s + sqo s < sqt s \/ some_waker committed (wakers s))
   /\ lost s = false.
 
 (** Second invariant (no assumption on the schedule): every head anybody has loaded is an old
     head, so every [enter] of the default mode submits all that is published; a published
     message has a submitter. *)
 Definition Inv2 (s : st) : Prop :=
-  sqh s <= sqt s
+  sqh s + sqo s <= sqt s
   /\ lh s <= sqh s
   /\ Forall (fun v => v <= sqh s) (wlh s)
-  /\ (sqh s < sqt s -> md s = KernelThread \/ some_waker submitter_pc (wakers s)).
+  /\ (sqh s + sqo s < sqt s -> md s = KernelThread \/ some_waker submitter (wakers s)).
 
 (** ** The state word *)
 Lemma four_cases p : p < 4 -> p = 0 \/ p = 1 \/ p = 2 \/ p = 3.
@@ -176,7 +186,7 @@ Proof.
 Qed.
 
 Lemma some_waker_self f (l : list waker) i w' :
-  (i < length l)%nat -> f (wp w') = true ->
+  (i < length l)%nat -> f w' = true ->
   some_waker f (firstn i l ++ w' :: skipn (S i) l).
 Proof.
   intros Hi Hf. exists i, w'. rewrite nth_error_upd by exact Hi. rewrite Nat.eqb_refl.
@@ -185,7 +195,7 @@ Qed.
 
 (** Replacing a waker that is not the witness, or by one that is a witness too. *)
 Lemma some_waker_upd f (l : list waker) i w w' :
-  nth_error l i = Some w -> (f (wp w) = true -> f (wp w') = true) ->
+  nth_error l i = Some w -> (f w = true -> f w' = true) ->
   some_waker f l -> some_waker f (firstn i l ++ w' :: skipn (S i) l).
 Proof.
   intros Hi Hf (j & wj & Hj & Hfj).
@@ -198,10 +208,11 @@ Qed.
 
 (** ** One step at a time *)
 Ltac proj :=
-  cbn [md pstate sqh sqt cq holder pp polls aw lh seen wakers wlh owed lost
-       set_p set_w set_wlh set_holder consume consume_all at_pc call_done wp calls
+  cbn [md pstate cap sqh sqt sqo cq holder pp polls aw lh seen wakers wlh owed lost
+       set_p set_lh set_w set_wlh set_holder consume consume_all poll_return
+       at_pc at_pc_ok call_done wp calls wok
        after_enter_ok pstuck
-       polling_pc entering_pc before_pc committed_pc submitter_pc] in *.
+       polling_pc entering_pc before_pc] in *.
 Ltac inv_destruct H := destruct H as (Hle & Hps & Hb0 & Hik & How & Hbe & Hres & Hlost).
 Ltac splits := repeat match goal with |- _ /\ _ => split end.
 
@@ -211,10 +222,12 @@ Proof.
   intros HI. inv_destruct HI. unfold Inv; proj.
   set (k' := N.min k (sqt s - sqh s)) in *.
   assert (Hk : k' <= sqt s - sqh s) by (unfold k'; lia).
+  set (o := N.min k' (sqo s)) in *.
+  assert (Ho : o <= k' /\ o <= sqo s /\ (o = k' \/ o = sqo s)) by (unfold o; lia).
   splits; try assumption; try lia.
   intros A B C. destruct (Hres A B C) as [H|[H|H]].
   - left. lia.
-  - destruct (N.eq_dec k' 0) as [E|E]; [right; left; lia|left; lia].
+  - destruct (N.eq_dec (k' - o) 0) as [E|E]; [right; left; lia|left; lia].
   - right; right. exact H.
 Qed.
 
@@ -235,10 +248,10 @@ Lemma syscall_submit_wlh s k : wlh (syscall_submit s k) = wlh s.
 Proof. unfold syscall_submit, consume_all. destruct (md s); reflexivity. Qed.
 
 (** [enter] with [min_complete = 1]: blocks only when not awoken. *)
-Lemma Inv_enter_wait s : Inv s -> entering_pc (pp s) = true -> Inv (enter_wait s).
+Lemma Inv_enter_wait s n : Inv s -> entering_pc (pp s) = true -> Inv (enter_wait s n).
 Proof.
   intros HI He. inv_destruct HI. unfold enter_wait.
-  destruct (0 <? cq s); [|destruct (aw s) eqn:Eaw];
+  destruct (0 <? cq s); [|destruct (aw s) eqn:Eaw; [destruct (0 <? n)|]];
     unfold Inv; proj; destruct (pp s); try discriminate He; proj; try rewrite Eaw;
     splits; try assumption; try discriminate; try reflexivity; try (intros; discriminate);
     auto.
@@ -285,8 +298,9 @@ Proof.
     inv_destruct HI. rewrite Epp in *. unfold Inv; proj.
     splits; try assumption; intros; discriminate.
   - (* PWbT *)
-    inv_destruct HI. rewrite Epp in *. unfold Inv; proj.
-    splits; try assumption; intros; discriminate.
+    inv_destruct HI. rewrite Epp in *.
+    destruct (sq_full s (lh s)); unfold Inv; proj;
+      splits; try assumption; intros; discriminate.
   - (* PWbTry *)
     inv_destruct HI. rewrite Epp in *. unfold Inv; proj.
     splits; try assumption; intros; discriminate.
@@ -305,8 +319,9 @@ Proof.
     inv_destruct HI. rewrite Epp in *. unfold Inv; proj.
     splits; try assumption; intros; discriminate.
   - (* PEndWbT *)
-    inv_destruct HI. rewrite Epp in *. unfold Inv; proj.
-    splits; try assumption; intros; discriminate.
+    inv_destruct HI. rewrite Epp in *.
+    destruct (sq_full s (lh s)); unfold Inv; proj;
+      splits; try assumption; intros; discriminate.
   - (* PEndWbTry: the poll returns, nothing is owed any more *)
     inv_destruct HI. rewrite Epp in *. unfold Inv; proj.
     splits; try assumption; intros; discriminate.
@@ -315,18 +330,27 @@ Qed.
 (** A waker step that changes only the waker's own record, the lock and its local head. *)
 Lemma Inv_waker_local s s' i w w' :
   Inv s -> nth_error (wakers s) i = Some w ->
-  pstate s' = pstate s -> sqh s' = sqh s -> sqt s' = sqt s -> cq s' = cq s -> pp s' = pp s ->
-  aw s' = aw s -> owed s' = owed s -> lost s' = lost s ->
+  pstate s' = pstate s -> sqh s' = sqh s -> sqt s' = sqt s -> sqo s' = sqo s -> cq s' = cq s ->
+  pp s' = pp s -> aw s' = aw s -> owed s' = owed s -> lost s' = lost s ->
   wakers s' = firstn i (wakers s) ++ w' :: skipn (S i) (wakers s) ->
-  (committed_pc (wp w) = true -> committed_pc (wp w') = true) ->
+  (committed w = true -> committed w' = true) ->
   Inv s'.
 Proof.
-  intros HI Hi E1 E2 E3 E4 E5 E6 E7 E8 E9 Hc. inv_destruct HI.
-  unfold Inv. rewrite E1, E2, E3, E4, E5, E6, E7, E8, E9.
+  intros HI Hi E1 E2 E3 E0 E4 E5 E6 E7 E8 E9 Hc. inv_destruct HI.
+  unfold Inv. rewrite E1, E2, E3, E0, E4, E5, E6, E7, E8, E9.
   splits; try assumption.
   intros A B C. destruct (Hres A B C) as [H|[H|H]]; [left; exact H|right; left; exact H|].
-  right; right. apply (some_waker_upd committed_pc _ i w w'); assumption.
+  right; right. apply (some_waker_upd committed _ i w w'); assumption.
 Qed.
+
+(** The waker's side condition of [Inv_waker_local], by computation from its pc and [wok]. *)
+Ltac cm Epc :=
+  unfold committed; rewrite ?Epc;
+  cbn [at_pc at_pc_ok call_done wp wok negb];
+  repeat match goal with |- context [match md ?s with _ => _ end] => destruct (md s) end;
+  cbn [negb]; intros; try assumption; try reflexivity; try discriminate.
+Ltac wl s i w w' Epc :=
+  apply (Inv_waker_local s _ i w w'); try reflexivity; try assumption; cm Epc.
 
 Lemma Inv_wstep s i : Inv s -> Inv (wstep s i).
 Proof.
@@ -353,59 +377,61 @@ Proof.
       intros A _ C.
       destruct (N.testbit (pstate s) 1) eqn:B1.
       * destruct (Hres A eq_refl C) as [H|[H|H]]; [left; exact H|right; left; exact H|].
-        right; right. apply (some_waker_upd committed_pc _ i w); try assumption.
-        rewrite Epc. discriminate.
+        right; right. apply (some_waker_upd committed _ i w); try assumption.
+        unfold committed at 1. rewrite Epc. discriminate.
       * exfalso. apply Eold. apply polling_not_awoken; try assumption.
         rewrite Hb0. destruct (pp s); try discriminate A; reflexivity.
-  - (* WAddH1 *)
-    apply (Inv_waker_local s _ i w (at_pc w WAddT1)); try reflexivity; assumption.
-  - (* WAddT1 *)
-    apply (Inv_waker_local s _ i w (at_pc w WAddLock)); try reflexivity; assumption.
+  - (* WAddH1 *) wl s i w (at_pc w WAddT1) Epc.
+  - (* WAddT1: a full queue makes the add fail; the waker stays committed *)
+    destruct (sq_full s (nth i (wlh s) 0)).
+    + wl s i w (at_pc_ok w (match md s with KernelThread => WEnterFlags | _ => WEnterH end) false) Epc.
+    + wl s i w (at_pc w WAddLock) Epc.
   - (* WAddLock *)
     destruct (holder s).
-    + apply (Inv_waker_local s _ i w (at_pc w WAddSpin)); try reflexivity; assumption.
-    + apply (Inv_waker_local s _ i w (at_pc w WAddH2)); try reflexivity; assumption.
+    + wl s i w (at_pc w WAddSpin) Epc.
+    + wl s i w (at_pc w WAddH2) Epc.
   - (* WAddSpin *)
     destruct (holder s).
-    + apply (Inv_waker_local s _ i w (at_pc w WAddSpin)); try reflexivity; assumption.
-    + apply (Inv_waker_local s _ i w (at_pc w WAddH2)); try reflexivity; assumption.
-  - (* WAddH2 *)
-    apply (Inv_waker_local s _ i w (at_pc w WAddT2)); try reflexivity; assumption.
+    + wl s i w (at_pc w WAddSpin) Epc.
+    + wl s i w (at_pc w WAddH2) Epc.
+  - (* WAddH2 *) wl s i w (at_pc w WAddT2) Epc.
   - (* WAddT2 *)
-    apply (Inv_waker_local s _ i w (at_pc w WAddFill)); try reflexivity; assumption.
-  - (* WAddFill *)
-    apply (Inv_waker_local s _ i w (at_pc w WAddStore)); try reflexivity; assumption.
-  - (* WAddStore: publishes *)
+    destruct (sq_full s (nth i (wlh s) 0)).
+    + wl s i w (at_pc_ok w (match md s with KernelThread => WEnterFlags | _ => WEnterH end) false) Epc.
+    + wl s i w (at_pc w WAddFill) Epc.
+  - (* WAddFill *) wl s i w (at_pc w WAddStore) Epc.
+  - (* WAddStore: publishes a message *)
     inv_destruct HI. unfold Inv; proj. splits; try assumption; lia.
-  - (* WEnterH *)
-    apply (Inv_waker_local s _ i w (at_pc w WEnterT)); try reflexivity; try assumption.
-    rewrite Epc. discriminate.
+  - (* WEnterH *) wl s i w (at_pc w WEnterT) Epc.
   - (* WEnterT: its own enter *)
     apply (Inv_waker_local (syscall_submit s (sqt s - nth i (wlh s) 0)) _ i w (at_pc w WWbH));
       try reflexivity.
     + apply Inv_syscall_submit; exact HI.
     + rewrite syscall_submit_wakers. exact Hi.
-    + rewrite Epc. discriminate.
+    + cm Epc.
   - (* WEnterFlags *)
     apply (Inv_waker_local (syscall_submit s 0) _ i w (at_pc w WWbH)); try reflexivity.
     + apply Inv_syscall_submit; exact HI.
     + rewrite syscall_submit_wakers. exact Hi.
-    + rewrite Epc. discriminate.
-  - (* WWbH *)
-    apply (Inv_waker_local s _ i w (at_pc w WWbT)); try reflexivity; try assumption.
-    rewrite Epc. discriminate.
-  - (* WWbT *)
-    apply (Inv_waker_local s _ i w (at_pc w WWbTry)); try reflexivity; try assumption.
-    rewrite Epc. discriminate.
+    + cm Epc.
+  - (* WWbH *) wl s i w (at_pc w WWbT) Epc.
+  - (* WWbT: done when the add had succeeded, else back to the add *)
+    destruct (sq_full s (nth i (wlh s) 0)); [destruct (wok w) eqn:Ewok|].
+    + apply (Inv_waker_local s _ i w (call_done w)); try reflexivity; try assumption.
+      unfold committed at 1. rewrite Epc, Ewok. discriminate.
+    + wl s i w (at_pc w WAddH1) Epc.
+    + wl s i w (at_pc w WWbTry) Epc.
   - (* WWbTry *)
-    apply (Inv_waker_local s _ i w (call_done w)); try reflexivity; try assumption.
-    rewrite Epc. discriminate.
+    destruct (wok w) eqn:Ewok.
+    + apply (Inv_waker_local s _ i w (call_done w)); try reflexivity; try assumption.
+      unfold committed at 1. rewrite Epc, Ewok. discriminate.
+    + wl s i w (at_pc w WAddH1) Epc.
 Qed.
 
 (** What the invariant says about a blocked poller that is owed a wake-up. *)
 Lemma Inv_blocked_owed s :
   Inv s -> pp s = PInKernel -> owed s = true ->
-  0 < cq s \/ sqh s < sqt s \/ some_waker committed_pc (wakers s).
+  0 < cq s \/ sqh s + sqo s < sqt s \/ some_waker committed (wakers s).
 Proof.
   intros HI Epp Ho. inv_destruct HI. rewrite Epp in *. proj.
   specialize (Hik eq_refl).
@@ -413,12 +439,12 @@ Proof.
   apply Hres; [reflexivity|exact H|exact Hik].
 Qed.
 
-Lemma finished_no_waker f s :
-  all_wakers_finished s -> f WIdle = false -> ~ some_waker f (wakers s).
+Lemma finished_no_committed s :
+  all_wakers_finished s -> ~ some_waker committed (wakers s).
 Proof.
-  intros Hall Hf (i & w & Hi & Hw). unfold all_wakers_finished in Hall.
+  intros Hall (i & w & Hi & Hw). unfold all_wakers_finished in Hall.
   rewrite Forall_forall in Hall. destruct (Hall w (nth_error_In _ _ Hi)) as [E _].
-  rewrite E in Hw. congruence.
+  unfold committed in Hw. rewrite E in Hw. discriminate Hw.
 Qed.
 
 (** The scheduler reports "stuck" only when nothing is owed. *)
@@ -428,7 +454,7 @@ Proof.
   assert (Ho : owed s = false).
   { destruct (owed s) eqn:Ho; [|reflexivity]. exfalso.
     destruct (Inv_blocked_owed s HI Epp Ho) as [H|[H|H]]; [lia|lia|].
-    apply (finished_no_waker committed_pc s Hall eq_refl H). }
+    apply (finished_no_committed s Hall H). }
   inv_destruct HI. rewrite Epp in *. unfold Inv; proj.
   splits; try assumption; try (intros; discriminate).
   rewrite Hlost, Ho. reflexivity.
@@ -442,7 +468,7 @@ Proof.
   - apply Inv_stuck; assumption.
 Qed.
 
-Lemma Inv_init m npolls wcalls : Inv (init m npolls wcalls).
+Lemma Inv_init m c prefill npolls wcalls : Inv (init m c prefill npolls wcalls).
 Proof.
   unfold Inv, init; proj. splits; try reflexivity; try lia; intros; discriminate.
 Qed.
@@ -459,8 +485,9 @@ Proof.
   destruct (run step s1 es) as [s2 o2]. exact IH.
 Qed.
 
-Lemma run_Inv m npolls wcalls es :
-  valid (init m npolls wcalls) es -> Inv (fst (run step (init m npolls wcalls) es)).
+Lemma run_Inv m c prefill npolls wcalls es :
+  valid (init m c prefill npolls wcalls) es ->
+  Inv (fst (run step (init m c prefill npolls wcalls) es)).
 Proof. intros Hv. apply (run_valid_invariant Inv Inv_step); [exact Hv|apply Inv_init]. Qed.
 
 (** ** The second invariant *)
@@ -471,13 +498,15 @@ Proof.
   intros HI. inv2_destruct HI. unfold Inv2; proj.
   set (k' := N.min k (sqt s - sqh s)) in *.
   assert (Hk : k' <= sqt s - sqh s) by (unfold k'; lia).
+  set (o := N.min k' (sqo s)) in *.
+  assert (Ho : o <= k' /\ o <= sqo s /\ (o = k' \/ o = sqo s)) by (unfold o; lia).
   splits; try lia.
   - eapply Forall_impl; [|exact Hwl]. cbv beta. intros; lia.
   - intros H. apply Hsub. lia.
 Qed.
 
 (** Submitting at least what is pending empties the submission queue. *)
-Lemma consume_all_drains s k : sqh s <= sqt s -> sqt s - sqh s <= k ->
+Lemma consume_all_drains s k : sqh s + sqo s <= sqt s -> sqt s - sqh s <= k ->
   sqh (consume s k) = sqt (consume s k).
 Proof. intros H1 H2. proj. lia. Qed.
 
@@ -489,22 +518,24 @@ Qed.
 (** A syscall with [to_submit] computed from an old head: nothing stays pending (in the
     kernel-thread mode the kernel thread has taken everything anyway). *)
 Lemma syscall_submit_drains s v :
-  sqh s <= sqt s -> v <= sqh s ->
+  sqh s + sqo s <= sqt s -> v <= sqh s ->
   sqh (syscall_submit s (sqt s - v)) = sqt (syscall_submit s (sqt s - v)).
 Proof.
   intros H1 H2. unfold syscall_submit, consume_all.
   destruct (md s); apply consume_all_drains; lia.
 Qed.
 
-Lemma Inv2_enter_wait s : Inv2 s -> Inv2 (enter_wait s).
+Lemma Inv2_enter_wait s n : Inv2 s -> Inv2 (enter_wait s n).
 Proof.
-  intros HI. unfold enter_wait. destruct (0 <? cq s); [|destruct (aw s)]; exact HI.
+  intros HI. unfold enter_wait.
+  destruct (0 <? cq s); [|destruct (aw s); [destruct (0 <? n)|]]; exact HI.
 Qed.
 
 Lemma Inv2_pstep s : Inv2 s -> Inv2 (pstep s).
 Proof.
   intros HI. unfold pstep. destruct (pp s) eqn:Epp;
     try exact HI;
+    try (destruct (sq_full s (lh s)); exact HI);
     try (inv2_destruct HI; unfold Inv2; proj; splits; try assumption; lia).
   - destruct (polls s); exact HI.
   - destruct (0 <? cq s); exact HI.
@@ -517,16 +548,27 @@ Qed.
 
 Lemma Inv2_waker_local s s' i w w' :
   Inv2 s -> nth_error (wakers s) i = Some w ->
-  md s' = md s -> sqh s' = sqh s -> sqt s' = sqt s -> lh s' = lh s -> wlh s' = wlh s ->
+  md s' = md s -> sqh s' = sqh s -> sqt s' = sqt s -> sqo s' = sqo s -> lh s' = lh s ->
+  (wlh s' = wlh s \/ wlh s' = firstn i (wlh s) ++ sqh s :: skipn (S i) (wlh s)) ->
   wakers s' = firstn i (wakers s) ++ w' :: skipn (S i) (wakers s) ->
-  (submitter_pc (wp w) = true -> submitter_pc (wp w') = true) ->
+  (submitter w = true -> submitter w' = true) ->
   Inv2 s'.
 Proof.
-  intros HI Hi E1 E2 E3 E4 E5 E6 Hc. inv2_destruct HI.
-  unfold Inv2. rewrite E1, E2, E3, E4, E5, E6. splits; try assumption.
-  intros A. destruct (Hsub A) as [H|H]; [left; exact H|right].
-  apply (some_waker_upd submitter_pc _ i w w'); assumption.
+  intros HI Hi E1 E2 E3 E0 E4 E5 E6 Hc. inv2_destruct HI.
+  unfold Inv2. rewrite E1, E2, E3, E0, E4, E6. splits; try assumption.
+  - destruct E5 as [->| ->]; [exact Hwl|]. apply Forall_upd; [exact Hwl|lia].
+  - intros A. destruct (Hsub A) as [H|H]; [left; exact H|right].
+    apply (some_waker_upd submitter _ i w w'); assumption.
 Qed.
+
+(** The waker's side condition of [Inv2_waker_local]. *)
+Ltac sm Epc :=
+  unfold submitter; rewrite ?Epc;
+  cbn [at_pc at_pc_ok call_done wp wok];
+  intros; try assumption; try reflexivity; try discriminate.
+Ltac wl2 s i w w' Epc :=
+  apply (Inv2_waker_local s _ i w w');
+    try reflexivity; try assumption; try (left; reflexivity); try (right; reflexivity); sm Epc.
 
 Lemma Inv2_wstep s i : Inv2 s -> Inv2 (wstep s i).
 Proof.
@@ -536,35 +578,33 @@ Proof.
   destruct (wp w) eqn:Epc.
   - (* WIdle *)
     destruct (calls w); [exact HI|].
-    destruct (pstate s =? IS_POLLING); [destruct (md s) eqn:Emd|].
-    + apply (Inv2_waker_local s _ i w (at_pc w WAddH1)); try reflexivity; try assumption; try (symmetry; exact Emd).
-      rewrite Epc. discriminate.
-    + apply (Inv2_waker_local s _ i w (call_done w)); try reflexivity; try assumption; try (symmetry; exact Emd).
-      rewrite Epc. discriminate.
-    + apply (Inv2_waker_local s _ i w (at_pc w WAddH1)); try reflexivity; try assumption; try (symmetry; exact Emd).
-      rewrite Epc. discriminate.
-    + apply (Inv2_waker_local s _ i w (call_done w)); try reflexivity; try assumption; try (symmetry; exact Emd).
-      rewrite Epc. discriminate.
-  - apply (Inv2_waker_local s _ i w (at_pc w WAddT1)); try reflexivity; try assumption.
-    rewrite Epc. discriminate.
-  - apply (Inv2_waker_local s _ i w (at_pc w WAddLock)); try reflexivity; try assumption.
-    rewrite Epc. discriminate.
+    destruct (pstate s =? IS_POLLING).
+    + assert (Hgen : forall s', md s' = md s -> sqh s' = sqh s -> sqt s' = sqt s ->
+                sqo s' = sqo s -> lh s' = lh s -> wlh s' = wlh s ->
+                (exists w', wakers s' = firstn i (wakers s) ++ w' :: skipn (S i) (wakers s)) ->
+                Inv2 s').
+      { intros s' E1 E2 E3 E0 E4 E5 (w' & E6).
+        apply (Inv2_waker_local s s' i w w'); try assumption; [left; exact E5|].
+        unfold submitter at 1. rewrite Epc. discriminate. }
+      destruct (md s); apply Hgen; try reflexivity; eexists; reflexivity.
+    + wl2 s i w (call_done w) Epc.
+  - (* WAddH1 *) wl2 s i w (at_pc w WAddT1) Epc.
+  - (* WAddT1 *)
+    destruct (sq_full s (nth i (wlh s) 0)).
+    + wl2 s i w (at_pc_ok w (match md s with KernelThread => WEnterFlags | _ => WEnterH end) false) Epc.
+    + wl2 s i w (at_pc w WAddLock) Epc.
   - destruct (holder s).
-    + apply (Inv2_waker_local s _ i w (at_pc w WAddSpin)); try reflexivity; try assumption.
-      rewrite Epc. discriminate.
-    + apply (Inv2_waker_local s _ i w (at_pc w WAddH2)); try reflexivity; try assumption.
-      rewrite Epc. discriminate.
+    + wl2 s i w (at_pc w WAddSpin) Epc.
+    + wl2 s i w (at_pc w WAddH2) Epc.
   - destruct (holder s).
-    + apply (Inv2_waker_local s _ i w (at_pc w WAddSpin)); try reflexivity; try assumption.
-      rewrite Epc. discriminate.
-    + apply (Inv2_waker_local s _ i w (at_pc w WAddH2)); try reflexivity; try assumption.
-      rewrite Epc. discriminate.
-  - apply (Inv2_waker_local s _ i w (at_pc w WAddT2)); try reflexivity; try assumption.
-    rewrite Epc. discriminate.
-  - apply (Inv2_waker_local s _ i w (at_pc w WAddFill)); try reflexivity; try assumption.
-    rewrite Epc. discriminate.
-  - apply (Inv2_waker_local s _ i w (at_pc w WAddStore)); try reflexivity; try assumption.
-    rewrite Epc. discriminate.
+    + wl2 s i w (at_pc w WAddSpin) Epc.
+    + wl2 s i w (at_pc w WAddH2) Epc.
+  - (* WAddH2 *) wl2 s i w (at_pc w WAddT2) Epc.
+  - (* WAddT2 *)
+    destruct (sq_full s (nth i (wlh s) 0)).
+    + wl2 s i w (at_pc_ok w (match md s with KernelThread => WEnterFlags | _ => WEnterH end) false) Epc.
+    + wl2 s i w (at_pc w WAddFill) Epc.
+  - (* WAddFill *) wl2 s i w (at_pc w WAddStore) Epc.
   - (* WAddStore: publishes; in the default mode the publisher is the submitter *)
     inv2_destruct HI. unfold Inv2; proj. splits; try assumption; try lia.
     intros _. destruct (md s) eqn:Emd.
@@ -572,9 +612,7 @@ Proof.
     + right. apply some_waker_self; [exact Hil|reflexivity].
     + left. reflexivity.
   - (* WEnterH: loads the head, after its own store *)
-    inv2_destruct HI. unfold Inv2; proj. splits; try assumption.
-    + apply Forall_upd; [exact Hwl|lia].
-    + intros _. right. apply some_waker_self; [exact Hil|reflexivity].
+    wl2 s i w (at_pc w WEnterT) Epc.
   - (* WEnterT: submits everything published *)
     assert (Hv : nth i (wlh s) 0 <= sqh s).
     { inv2_destruct HI. apply (Forall_nth_default (fun v => v <= sqh s)); [exact Hwl|lia]. }
@@ -587,13 +625,18 @@ Proof.
     apply (Inv2_waker_local (syscall_submit s 0) _ i w (at_pc w WWbH)); try reflexivity.
     + apply Inv2_syscall_submit; exact HI.
     + rewrite syscall_submit_wakers. exact Hi.
-    + rewrite Epc. discriminate.
-  - apply (Inv2_waker_local s _ i w (at_pc w WWbT)); try reflexivity; try assumption.
-    rewrite Epc. discriminate.
-  - apply (Inv2_waker_local s _ i w (at_pc w WWbTry)); try reflexivity; try assumption.
-    rewrite Epc. discriminate.
-  - apply (Inv2_waker_local s _ i w (call_done w)); try reflexivity; try assumption.
-    rewrite Epc. discriminate.
+    + left; reflexivity.
+    + sm Epc.
+  - (* WWbH *) wl2 s i w (at_pc w WWbT) Epc.
+  - (* WWbT *)
+    destruct (sq_full s (nth i (wlh s) 0)); [destruct (wok w)|].
+    + wl2 s i w (call_done w) Epc.
+    + wl2 s i w (at_pc w WAddH1) Epc.
+    + wl2 s i w (at_pc w WWbTry) Epc.
+  - (* WWbTry *)
+    destruct (wok w).
+    + wl2 s i w (call_done w) Epc.
+    + wl2 s i w (at_pc w WAddH1) Epc.
 Qed.
 
 Lemma Inv2_step s e : Inv2 s -> Inv2 (fst (step s e)).
@@ -604,34 +647,36 @@ Proof.
   - destruct (pp s); exact HI.
 Qed.
 
-Lemma Inv2_init m npolls wcalls : Inv2 (init m npolls wcalls).
+Lemma Inv2_init m c prefill npolls wcalls : Inv2 (init m c prefill npolls wcalls).
 Proof.
   unfold Inv2, init; proj. splits; try lia.
-  apply Forall_forall. intros v Hin. apply in_map_iff in Hin. destruct Hin as (c & <- & _). lia.
+  apply Forall_forall. intros v Hin. apply in_map_iff in Hin. destruct Hin as (x & <- & _). lia.
 Qed.
 
-Lemma run_Inv2 m npolls wcalls es : Inv2 (fst (run step (init m npolls wcalls) es)).
+Lemma run_Inv2 m c prefill npolls wcalls es :
+  Inv2 (fst (run step (init m c prefill npolls wcalls) es)).
 Proof. apply (run_invariant step Inv2 Inv2_step). apply Inv2_init. Qed.
 
 (** ** The statements *)
 Lemma no_lost_ring_wakeup_holds : no_lost_ring_wakeup.
 Proof.
-  intros m npolls wcalls es Hv. pose proof (run_Inv m npolls wcalls es Hv) as HI.
+  intros m c prefill npolls wcalls es Hv.
+  pose proof (run_Inv m c prefill npolls wcalls es Hv) as HI.
   inv_destruct HI. exact Hlost.
 Qed.
 
 Lemma committed_not_idle l :
-  some_waker committed_pc l -> exists i w, nth_error l i = Some w /\ wp w <> WIdle.
+  some_waker committed l -> exists i w, nth_error l i = Some w /\ wp w <> WIdle.
 Proof.
-  intros (i & w & Hi & Hc). exists i, w. split; [exact Hi|]. intros E. rewrite E in Hc.
-  discriminate Hc.
+  intros (i & w & Hi & Hc). exists i, w. split; [exact Hi|]. intros E.
+  unfold committed in Hc. rewrite E in Hc. discriminate Hc.
 Qed.
 
 Lemma wake_is_on_its_way_holds : wake_is_on_its_way.
 Proof.
-  intros m npolls wcalls es Hv. cbv zeta. intros Epp Ho.
-  pose proof (run_Inv m npolls wcalls es Hv) as HI.
-  destruct (Inv_blocked_owed _ HI Epp Ho) as [H|[H|H]]; [left; exact H|right; left; exact H|].
+  intros m c prefill npolls wcalls es Hv. cbv zeta. intros Epp Ho.
+  pose proof (run_Inv m c prefill npolls wcalls es Hv) as HI.
+  destruct (Inv_blocked_owed _ HI Epp Ho) as [H|[H|H]]; [left; exact H|right; left; lia|].
   right; right. apply committed_not_idle. exact H.
 Qed.
 
@@ -642,19 +687,21 @@ Qed.
 
 Lemma pending_message_has_a_submitter_holds : pending_message_has_a_submitter.
 Proof.
-  intros m npolls wcalls es. cbv zeta. intros Hlt.
-  pose proof (run_Inv2 m npolls wcalls es) as HI. inv2_destruct HI.
+  intros m c prefill npolls wcalls es. cbv zeta. intros Hlt.
+  pose proof (run_Inv2 m c prefill npolls wcalls es) as HI. inv2_destruct HI.
   destruct (Hsub Hlt) as [H|(i & w & Hi & Hw)]; [left; exact H|right].
-  exists i, w. split; [exact Hi|]. destruct (wp w); try discriminate Hw; auto.
+  exists i, w. split; [exact Hi|]. unfold submitter in Hw.
+  destruct (wp w); try discriminate Hw; auto.
 Qed.
 
 Lemma owed_poller_is_resumable_or_a_waker_is_running_holds :
   owed_poller_is_resumable_or_a_waker_is_running.
 Proof.
-  intros m npolls wcalls es Hv. cbv zeta. intros Epp Ho.
-  destruct (wake_is_on_its_way_holds m npolls wcalls es Hv Epp Ho) as [H|[H|H]];
-    [left; exact H| |right; right; exact H].
-  destruct (pending_message_has_a_submitter_holds m npolls wcalls es H)
+  intros m c prefill npolls wcalls es Hv. cbv zeta. intros Epp Ho.
+  pose proof (run_Inv m c prefill npolls wcalls es Hv) as HI.
+  destruct (Inv_blocked_owed _ HI Epp Ho) as [H|[H|H]];
+    [left; exact H| |right; right; apply committed_not_idle; exact H].
+  destruct (pending_message_has_a_submitter_holds m c prefill npolls wcalls es H)
     as [Hm|(i & w & Hi & Hw)].
   - right; left. split; assumption.
   - right; right. exists i, w. split; [exact Hi|]. destruct Hw as [E|E]; rewrite E; discriminate.
@@ -751,14 +798,15 @@ Definition wake_schedule_kthread : list ev :=
 Definition wake_schedule_single : list ev :=
   [P; P; P; P; P] ++ [W 0] ++ [P] ++ [P; P; P; P; P; P] ++ [P; P; P].
 
+(** The examples below use a queue of 8 entries, empty at the start. *)
 Definition blocked_then_woken (m : mode) (es : list ev) (nblock : nat) : Prop :=
-  valid (init m 1 [1%nat]) es
-  /\ (let s := fst (run step (init m 1 [1%nat]) (firstn nblock es)) in
+  valid (init m 8 0 1 [1%nat]) es
+  /\ (let s := fst (run step (init m 8 0 1 [1%nat]) (firstn nblock es)) in
       pp s = PInKernel /\ pstate s = IS_POLLING /\ cq s = 0 /\ owed s = false)
-  /\ (let s := fst (run step (init m 1 [1%nat]) (firstn (S nblock) es)) in
+  /\ (let s := fst (run step (init m 8 0 1 [1%nat]) (firstn (S nblock) es)) in
       pp s = PInKernel /\ pstate s = N.lor IS_POLLING IS_AWOKEN /\ owed s = true
       /\ (0 < cq s \/ exists w, nth_error (wakers s) 0 = Some w /\ wp w = WAddH1))
-  /\ (let s := fst (run step (init m 1 [1%nat]) es) in
+  /\ (let s := fst (run step (init m 8 0 1 [1%nat]) es) in
       pp s = PIdle /\ polls s = O /\ pstate s = NOT_POLLING /\ owed s = false
       /\ lost s = false /\ all_wakers_finished s).
 
@@ -784,6 +832,58 @@ Proof.
   example_tac. vm_compute. repeat split; try reflexivity. left. reflexivity.
 Qed.
 
+(** The submission queue is full at the [fetch_or] (one entry, taken by an unrelated operation
+    that nobody has submitted yet): the waker's first [add] fails at the pre-check; its [enter]
+    flushes the queue; the poller blocks meanwhile (owed, nothing in either queue: the waker
+    between the failed [add] and the retry is what is "on its way"); the retry publishes the
+    message, the waker's second [enter] submits it and the blocked poll returns. With the retry
+    loop of [Submissions::wake] cut to one attempt the waker would be finished at event 13 and
+    the wake-up lost. *)
+Definition wake_schedule_queue_full : list ev :=
+  [P; P; P]                                             (* set_polling(true) done *)
+  ++ [W 0]                                              (* fetch_or: 01 -> 11, committed *)
+  ++ [W 0; W 0]                                         (* add: load head, load tail: full, fails *)
+  ++ [W 0; W 0]                                         (* enter: flushes the other entry *)
+  ++ [P; P]                                             (* the poll's enter: nothing there, blocks *)
+  ++ [W 0; W 0; W 0]                                    (* wake_blocked_futures; add had failed: retry *)
+  ++ [W 0; W 0; W 0; W 0; W 0; W 0; W 0]                (* add: this time publishes the message *)
+  ++ [W 0; W 0]                                         (* enter: the kernel posts the completions *)
+  ++ [P]                                                (* the blocked enter returns *)
+  ++ [W 0; W 0; W 0]                                    (* the call is done *)
+  ++ [P; P; P; P; P; P; P; P; P].                       (* the poll returns *)
+
+Example wake_example_queue_full :
+  let s0 := init Default 1 1 1 [1%nat] in
+  let at_ n := fst (run step s0 (firstn n wake_schedule_queue_full)) in
+  valid s0 wake_schedule_queue_full
+  /\ (let s := at_ 4%nat in
+      pstate s = N.lor IS_POLLING IS_AWOKEN /\ owed s = true /\ sqt s - sqh s = cap s
+      /\ nth_error (wakers s) 0 = Some {| wp := WAddH1; calls := 1; wok := false |})
+  /\ (let s := at_ 6%nat in
+      nth_error (wakers s) 0 = Some {| wp := WEnterH; calls := 1; wok := false |})
+  /\ (let s := at_ 8%nat in
+      sqh s = sqt s /\ cq s = 0
+      /\ nth_error (wakers s) 0 = Some {| wp := WWbH; calls := 1; wok := false |})
+  /\ (let s := at_ 10%nat in
+      pp s = PInKernel /\ owed s = true /\ cq s = 0 /\ sqh s = sqt s
+      /\ nth_error (wakers s) 0 = Some {| wp := WWbH; calls := 1; wok := false |})
+  /\ (let s := at_ 13%nat in
+      pp s = PInKernel
+      /\ nth_error (wakers s) 0 = Some {| wp := WAddH1; calls := 1; wok := false |})
+  /\ (let s := at_ 20%nat in
+      pp s = PInKernel /\ sqt s = sqh s + 1 /\ sqo s = 0 /\ cq s = 0
+      /\ nth_error (wakers s) 0 = Some {| wp := WEnterH; calls := 1; wok := true |})
+  /\ (let s := at_ 22%nat in pp s = PInKernel /\ cq s = 2 /\ sqh s = sqt s)
+  /\ (let s := fst (run step s0 wake_schedule_queue_full) in
+      pp s = PIdle /\ polls s = O /\ pstate s = NOT_POLLING /\ owed s = false
+      /\ lost s = false /\ all_wakers_finished s).
+Proof.
+  cbv zeta. split; [apply validb_sound; vm_compute; reflexivity|].
+  repeat match goal with |- _ /\ _ => split end;
+    try (vm_compute; reflexivity).
+  apply all_wakers_finished_b. vm_compute. reflexivity.
+Qed.
+
 (** ** Why "in progress" is read at API level.
     Under the stricter reading "a wake targets a poll that is *inside the kernel*, else the next
     one to start", the following schedule would be a lost wake-up: the first poll blocks; waker
@@ -806,17 +906,17 @@ Definition strict_schedule : list ev :=
 
 Lemma strict_target_reading_refuted :
   exists es,
-    valid (init Default 2 [1%nat; 1%nat]) es
+    valid (init Default 8 0 2 [1%nat; 1%nat]) es
     /\ (* waker 1's fetch_or: poll 1 is in progress but no longer inside the kernel; the bit is
           already set; the call returns at once *)
-       (let s := fst (run step (init Default 2 [1%nat; 1%nat]) (firstn 16 es)) in
+       (let s := fst (run step (init Default 8 0 2 [1%nat; 1%nat]) (firstn 16 es)) in
         nth_error es 16 = Some (W 1)
         /\ pp s = PWbH /\ polls s = 2%nat /\ pstate s = N.lor IS_POLLING IS_AWOKEN
-        /\ nth_error (wakers s) 1 = Some {| wp := WIdle; calls := 1 |}
-        /\ nth_error (wakers (wstep s 1)) 1 = Some {| wp := WIdle; calls := 0 |})
+        /\ nth_error (wakers s) 1 = Some {| wp := WIdle; calls := 1; wok := false |}
+        /\ nth_error (wakers (wstep s 1)) 1 = Some {| wp := WIdle; calls := 0; wok := false |})
     /\ (* the end: the second poll is blocked with nothing to wake it, and the scheduler may
           report it stuck; nothing is owed by the API-level reading *)
-       (let s := fst (run step (init Default 2 [1%nat; 1%nat]) es) in
+       (let s := fst (run step (init Default 8 0 2 [1%nat; 1%nat]) es) in
         pp s = PInKernel /\ polls s = 1%nat /\ cq s = 0 /\ sqh s = sqt s
         /\ all_wakers_finished s /\ ev_ok s Stuck
         /\ owed s = false /\ lost s = false
@@ -826,7 +926,7 @@ Proof.
   split; [apply validb_sound; vm_compute; reflexivity|].
   split; [vm_compute; repeat split; reflexivity|].
   assert (Hfin : all_wakers_finished
-                   (fst (run step (init Default 2 [1%nat; 1%nat]) strict_schedule)))
+                   (fst (run step (init Default 8 0 2 [1%nat; 1%nat]) strict_schedule)))
     by (apply all_wakers_finished_b; vm_compute; reflexivity).
   split; [vm_compute; reflexivity|]. split; [vm_compute; reflexivity|].
   split; [vm_compute; reflexivity|]. split; [vm_compute; reflexivity|].
